@@ -137,6 +137,10 @@ def export_gltf(
             buffer_name = "gltf_buffer.bin"
             files[buffer_name] = buffer_data
         buffers = [{"uri": buffer_name, "byteLength": len(buffer_data)}]
+        if len(buffer_data) == 0:
+            # nothing to store: no zero-length buffer and no empty `bufferViews`
+            buffers = []
+            files.pop(buffer_name, None)
     else:
         # make one buffer per buffer_items
         buffers = [None] * len(buffer_items)
